@@ -1241,6 +1241,7 @@ def SIS_pair_based(G, tau, gamma, rho = None, nodelist = None,
         
     if  nodelist is None: #only get here if Y0 is None
         nodelist = G.nodes()
+    if Y0 is None:
         Y0 = np.array([rho]*N)
     if len(Y0) != N:
         raise EoN.EoNError("incompatible length for Y0")            
@@ -1546,6 +1547,7 @@ def SIR_pair_based(G, tau, gamma, rho = None, nodelist=None, Y0=None,
         
     if  nodelist is None: #only get here if Y0 is None
         nodelist = G.nodes()
+    if Y0 is None:
         Y0 = np.array([rho]*N)
     if len(Y0) != N:
         raise EoN.EoNError("incompatible length for Y0")            
